@@ -109,7 +109,7 @@ IsAlnum(c) == IsDigit(c) \/ (c >= 65 /\ c <= 90) \/ (c >= 97 /\ c <= 122)
 HasTok(items, t) == \E i \in 1..Len(items) : items[i].tok = t
 OnceEach(items) == \A i, j \in 1..Len(items) : i # j => items[i].tok # items[j].tok
 RoundTrippable(items) ==
-  /\ \A i \in 1..Len(items) : ~items[i].opt /\ items[i].tok \in {tY, tm, td, tH, tM, tS, tf, tB, tb, tA, ta, tT}
+  /\ \A i \in 1..Len(items) : ~items[i].opt /\ items[i].tok \in {tY, tm, td, tH, tM, tS, tf, tB, tb, tA, ta, tT, tz}
   /\ OnceEach(items)
   /\ HasTok(items, tY) /\ (HasTok(items, tm) \/ HasTok(items, tB) \/ HasTok(items, tb)) /\ HasTok(items, td)
   /\ HasTok(items, tH) /\ HasTok(items, tM) /\ HasTok(items, tS)
@@ -118,7 +118,9 @@ RoundTrippable(items) ==
   /\ \A i \in 1..(Len(items) - 1) :
         LET numeric == items[i].tok \notin {tB, tb, tA, ta, tT} /\ items[i + 1].tok \notin {tB, tb, tA, ta, tT}
             sepOK(c) == ~IsDigit(c) /\ (IsAlnum(c) => numeric)
-        IN  items[i].s1 # -1 /\ sepOK(items[i].s1) /\ (items[i].s2 = -1 \/ sepOK(items[i].s2))
+        IN  \/ (items[i].s1 # -1 /\ sepOK(items[i].s1) /\ (items[i].s2 = -1 \/ sepOK(items[i].s2)))
+            \/ (items[i + 1].tok = tz /\ items[i].s1 = -1 /\ items[i].tok \in {tS, tf})     \* the sign of the offset delimits
+  /\ (HasTok(items, tz) => \E i \in 1..Len(items) : items[i].tok = tz /\ (i = Len(items) \/ (i = Len(items) - 1 /\ items[i].s1 = cSpace)))
   /\ (HasTok(items, tT) => items[Len(items)].tok = tT)
 
 (* Parsing with an all-numeric format (%Y %m %d %H %M %S %f %j, each at most once, a non-alphanumeric   *)
